@@ -1157,3 +1157,7 @@ M("C09-rescan-without-undefined-mode", "C09", "src/cppparser/cppPreprocessor.cxx
 M("C20-unique-name-lookup-needs-fptrs", "C20", "src/interrogatedb/interrogateDatabase.cxx",
   "  if (index_offset >= 0) {\n    return def->first_index + index_offset;", "  if (index_offset >= 0 && index_offset < def->num_fptrs) {\n    return def->first_index + index_offset;",
   expect="R20.9|InterrogateDatabase::get_wrapper_by_unique_name|reads-fptr-table")
+
+M("C14-type-trait-returns-node-address", "C14", "src/cppparser/cppExpression.cxx",
+  "->is_enum())", "->as_enum_type())",
+  expect="R14.7|CPPExpression::evaluate|Result(void*)")
